@@ -97,11 +97,16 @@ def gen_case(rng, idx, tier):
     # a state written in the middle of the run (restart file, `cv save`): the hills still waiting are tabulated at that moment,
     # once; the run goes on
     save_at = rng.randint(5, T - 10) if (grids and rng.random() < 0.5) else None
+    # without grids, half of the jobs stop at step K and are continued by a fresh module configured with ANOTHER hill width:
+    # every hill keeps the widths it was deposited with (they are part of the state), new hills get the new ones
+    resume = None
+    if not grids and rng.random() < 0.5:
+        resume = dict(K=rng.randint(10, T - 20), hw2=rng.choice([x for x in (1.0, 1.5, 2.0, 2.5, 3.0) if x != hw]))
     return dict(idx=idx, vs=vs, hist=hist, T=T, grids=grids, hf=hf, gf=gf, wt=wt, dT=rng.choice([1000.0, 3000.0]),
-                hw=hw, W=W, keep=(grids and rng.random() < 0.3), runs=runs, start=start, save_at=save_at)
+                hw=hw, W=W, keep=(grids and rng.random() < 0.3), runs=runs, start=start, save_at=save_at, resume=resume)
 
 
-def config(case):
+def config(case, hw=None):
     cfg = ""
     for v in case["vs"]:
         ex = "  expandBoundaries on\n" if v.expand else ""
@@ -116,7 +121,7 @@ def config(case):
         else:
             cfg += ctl.cv_d3(v.lo0, v.hi0, v.w, extra=ex)
     cfg += "metadynamics {\n  colvars %s\n  hillWeight %s\n  newHillFrequency %d\n  hillWidth %s\n" % (
-        " ".join(v.name for v in case["vs"]), fnum(case["W"]), case["hf"], fnum(case["hw"]))
+        " ".join(v.name for v in case["vs"]), fnum(case["W"]), case["hf"], fnum(case["hw"] if hw is None else hw))
     if not case["grids"]:
         cfg += "  useGrids off\n"
     else:
@@ -129,12 +134,20 @@ def config(case):
     return cfg
 
 
-def scenario(case):
+def scenario(case, part=None, state=None):
+    """part None: the whole job; 1: steps 0..K of a job that is resumed; 2: the fresh module (other hill width) that loads `state`
+    and computes steps K..T (step K again, as an engine does after a restart)"""
+    rs = case.get("resume")
     s = ctl.header("off", extra="dt 1.0\ntemp 300.0")
-    s += "emit atoms off\nkeeplog on\nmodule\n" + ("setstep %d\n" % case["start"] if case.get("start") else "") + "config <<EOC\n" + config(case) + "EOC\ninit\n"
-    for t in range(case["T"] + 1):
+    if part == 2:
+        s += "emit atoms off\nkeeplog on\nmodule\nconfig <<EOC\n" + config(case, rs["hw2"]) + "EOC\ninit\nloadstr <<EOS\n" + state + ("" if state.endswith("\n") else "\n") + "EOS\n"
+    else:
+        s += "emit atoms off\nkeeplog on\nmodule\n" + ("setstep %d\n" % case["start"] if case.get("start") else "") + "config <<EOC\n" + config(case) + "EOC\ninit\n"
+    t0 = rs["K"] if part == 2 else 0
+    t1 = rs["K"] if part == 1 else case["T"]
+    for t in range(t0, t1 + 1):
         kw = {v.name: h[t] for v, h in zip(case["vs"], case["hist"])}
-        if t in case["runs"]:
+        if t in case["runs"] and t > t0:
             s += "newrun\nstep\nmark repeat\n"
         s += ctl.pos_line(**kw) + "\nstep\n"
         if case.get("save_at") == t:
@@ -154,7 +167,7 @@ class Model:
 
     def gauss(self, h, x):
         q = 0.0
-        for v, xi, ci, s in zip(self.vs, x, h["c"], self.sig):
+        for v, xi, ci, s in zip(self.vs, x, h["c"], h["sig"]):
             d = v.diff(xi, ci)
             q += d * d / (s * s)
         return q
@@ -179,11 +192,11 @@ class Model:
             g = math.exp(-0.5 * q)
             e = h["W"] * g
             Ef += e
-            for k, (v, s) in enumerate(zip(self.vs, self.sig)):
+            for k, (v, s) in enumerate(zip(self.vs, h["sig"])):
                 Ff[k] += e * v.diff(p[k], h["c"][k]) / (s * s)
             if q <= 23.0:
                 Et += e
-                for k, (v, s) in enumerate(zip(self.vs, self.sig)):
+                for k, (v, s) in enumerate(zip(self.vs, h["sig"])):
                     Ft[k] += e * v.diff(p[k], h["c"][k]) / (s * s)
             if abs(q - 23.0) < 1e-9:
                 amb += e
@@ -216,7 +229,7 @@ class Model:
                 Et, Ef, _, _, _ = self.eval(x)
                 W = W * math.exp(-Et / (c["dT"] * KB))
                 self.wt_V = (Et, Ef)
-            self.hills.append(dict(t=t, W=W, c=list(x), tab=False))
+            self.hills.append(dict(t=t, W=W, c=list(x), tab=False, sig=list(self.sig)))
             deposited = True
         if c["grids"] and t % c["gf"] == 0:
             for h in self.hills:
@@ -226,7 +239,7 @@ class Model:
 
 def check_case(c, case, ev, sp):
     m = Model(case)
-    key = "nd%d:%s:%s%s%s" % (len(case["vs"]), "grids" if case["grids"] else "nogrids",
+    key = "nd%d:%s:%s%s%s" % (len(case["vs"]), ("grids" if case["grids"] else "nogrids") + (":resumed_other_width" if case.get("resume") else ""),
                               "gf=hf" if case["gf"] == case["hf"] else "gf>hf", ":wt" if case["wt"] else "",
                               ":periodic" if case["vs"][0].periodic else (":expand" if any(v.expand for v in case["vs"]) else ""))
     evs = [e for e in ev if e["ev"] in ("step", "mark")]
@@ -242,8 +255,17 @@ def check_case(c, case, ev, sp):
     nhills = 0
     offgrid = 0
     pending_steps = 0
+    resumed = False
     for e, rep in seq:
         t = e["it"]
+        if case.get("resume") and not resumed and e.get("_part") == 2:
+            # the fresh module: hills deposited from now on have the new widths; step K is computed again (no hill: relative step 0)
+            resumed = True
+            m.sig = [0.5 * case["resume"]["hw2"] * v.w for v in m.vs]
+            if e["rel"] != 0 or t - case.get("start", 0) != case["resume"]["K"]:
+                c.inconc("resumed part does not start with a repetition of step K (step %d, relative %d)" % (t, e["rel"]))
+                return False
+            c.bump("resumed_with_other_hill_width")
         x = [v.wrap(h[t - case.get("start", 0)]) for v, h in zip(m.vs, case["hist"])]
         for v, xi in zip(m.vs, x):
             if fl(e["cv"][v.name]["x"][0]) != xi:
@@ -319,7 +341,21 @@ def run(tier, replay):
     def do(case):
         # every sixth case also runs under ASan+UBSan (reports are fatal)
         flav = "asan" if case["idx"] % 6 == 0 else "plain"
-        return common.run_esim(flav, scenario(case), os.path.join(c.work, "c%d" % case["idx"]), "meta", timeout=900)
+        wd = os.path.join(c.work, "c%d" % case["idx"])
+        if not case.get("resume"):
+            return common.run_esim(flav, scenario(case), wd, "meta", timeout=900)
+        r1, ev1, sp1 = common.run_esim(flav, scenario(case, 1), wd, "meta_a", timeout=900)
+        sv = [e for e in ev1 if e["ev"] == "savestr"]
+        if not r1["complete"] or not sv:
+            return r1, ev1, sp1
+        r2, ev2, sp2 = common.run_esim(flav, scenario(case, 2, sv[-1]["state"]), wd, "meta_b", timeout=900)
+        for e in ev2:
+            e["_part"] = 2
+        # the configuration event of the first part stands for both (the second is checked here)
+        cfg2 = [e for e in ev2 if e["ev"] == "config"]
+        if cfg2 and cfg2[0]["rc"] != 0:
+            return r2, ev2, sp2
+        return r2, ev1 + [e for e in ev2 if e["ev"] != "config"], sp2
 
     res = common.pmap(do, cases)
     for case, (r, ev, sp) in zip(cases, res):
